@@ -97,6 +97,17 @@ func reqAPI(h *fasthttp.RequestHeader) *hdrAPI {
 var c29Special = map[string]bool{"content-type": true, "content-length": true, "host": true, "user-agent": true, "connection": true,
 	"server": true, "cookie": true, "set-cookie": true, "trailer": true, "transfer-encoding": true, "date": true, "content-encoding": true}
 
+// setCookieLines returns the values of the Set-Cookie field lines of a serialised header, in order.
+func setCookieLines(wire []byte) [][]byte {
+	var out [][]byte
+	for _, ln := range bytes.Split(wire, []byte("\r\n")) {
+		if k, v, ok := bytes.Cut(ln, []byte(":")); ok && strings.EqualFold(string(k), "Set-Cookie") {
+			out = append(out, bytes.TrimLeft(v, " "))
+		}
+	}
+	return out
+}
+
 func joinH(x [][]byte) string {
 	s := make([]string, len(x))
 	for i := range x {
@@ -123,7 +134,7 @@ func init() {
 	Register(&Prop{
 		ID: "C29",
 		Rule: "ord: random sequences (2..12 ops) of Add/Set/Del/Peek/PeekAll over ordinary names in several letter cases, request and response headers, normalisation on/off, compared with the Lean model and multimap reference; " +
-			"mix: the same with the specially handled names mixed in, judged by non-interference (other names keep values and order after every op) and write->parse round trip; " +
+			"mix: the same with the specially handled names mixed in, judged by non-interference (other names keep values and order after every op), accumulation of Set-Cookie values under Add and write->parse round trip; " +
 			"non-trivial = at least two names in use and a Del or Set present; distinct = distinct input",
 		Build: func(kind string, a [][]byte) *Case {
 			resp := a[0][0] != 0
@@ -202,9 +213,19 @@ func init() {
 							before[string(n)] = joinH(h.peekAll(n))
 						}
 					}
+					var ownBefore [][]byte
+					if resp && op == 'A' && canon(k) == canon(B("Set-Cookie")) {
+						// PeekAll joins the cookies into one value; the field lines of the serialised header are the list
+						ownBefore = append(setCookieLines(h.wire()), v) // cookies accumulate: Add appends one more Set-Cookie value
+					}
 					switch op {
 					case 'A':
 						h.add(k, v)
+						if ownBefore != nil {
+							if after := joinH(setCookieLines(h.wire())); after != joinH(ownBefore) {
+								verdict = &Verdict{VSpec, "set-cookie-not-accumulated", fmt.Sprintf("resp=%v dis=%v ops=%s: after Add(%q,%q) the header carries the Set-Cookie values [%s], the values before plus the new one are [%s]", resp, dis, showOps(ops[:i+3]), k, v, after, joinH(ownBefore))}
+							}
+						}
 					case 'S':
 						h.set(k, v)
 						mut = true
@@ -258,7 +279,7 @@ func init() {
 			if tier == "thorough" {
 				n = 300000
 			}
-			vals := [][]byte{B("1"), B("2"), B("a b"), B("x"), B("close"), B("5"), B("text/x; q=1"), B("k=v")}
+			vals := [][]byte{B("1"), B("2"), B("a b"), B("x"), B("close"), B("5"), B("text/x; q=1"), B("k=v"), B("k=w; Path=/a"), B("sid=1"), B("sid=2; Path=/b")}
 			for i := 0; i < 2*n; i++ {
 				kind := "ord"
 				names := ordNames
